@@ -566,3 +566,68 @@ Theorem C11_skip_empty_pair_refuted :
     = SCert rel_v1_cert.
 Proof. exact skip_empty_pair_refuted. Qed.
 Print Assumptions C11_skip_empty_pair_refuted.
+
+(* ===== the configured certificate path leads through symbolic links ===== *)
+(* (cert/path_source.go: the path is handed to loadPath as configured on every iteration, so
+   the links among its parents are followed anew by every load.)  What the path is loaded as
+   is what the place it denotes at that moment reads as ([world_view]: no walk, no memory of
+   where the path led before) *)
+Theorem C11_path_load_is_view_of_denoted_place : forall w, path_load w = world_view w.
+Proof. exact path_load_view. Qed.
+Print Assumptions C11_path_load_is_view_of_denoted_place.
+(* for every history of file trees, whichever links on the path were re-pointed between the
+   polls: the handshake after every poll is answered from the last tree of the prefix in
+   which the place the path denoted then read as a usable set (path source -> loadPath ->
+   watch -> store composed) *)
+Theorem C11_handshake_after_path_history : forall ws n s,
+  run_store_seen [] (e2e_actions watch_step false None (map path_load ws) n s) =
+  map (fun k => seen_on (last_good [] (firstn (S k) (map world_view ws))) n s) (seq 0 (length ws)).
+Proof. exact path_history. Qed.
+Print Assumptions C11_handshake_after_path_history.
+(* a release published by re-pointing a link on the path takes effect without restart,
+   wherever the path led before *)
+Theorem C11_path_switch_takes_effect : forall ws w d set n s,
+  denoted w = RDir d -> usable (dir_view d) = Some set ->
+  nth (length ws) (run_store_seen [] (e2e_actions watch_step false None (map path_load (ws ++ [w])) n s)) SNone
+  = seen_on set n s.
+Proof. exact path_switch_takes_effect. Qed.
+Print Assumptions C11_path_switch_takes_effect.
+(* a path that leads nowhere, or to unusable material, does not remove the working set *)
+Theorem C11_path_to_unusable_keeps_set : forall ws w n s,
+  usable (world_view w) = None ->
+  nth (length ws) (run_store_seen [] (e2e_actions watch_step false None (map path_load (ws ++ [w])) n s)) SNone
+  = seen_on (last_good [] (map world_view ws)) n s.
+Proof. exact path_to_unusable_keeps_set. Qed.
+Print Assumptions C11_path_to_unusable_keeps_set.
+Theorem C11_path_to_nothing_is_unusable : forall w, denoted w = RAbsent -> usable (world_view w) = None.
+Proof. exact path_to_nothing_unusable. Qed.
+Print Assumptions C11_path_to_nothing_is_unusable.
+(* a load depends on the place the path denotes now and on no other place *)
+Theorem C11_path_load_ignores_other_places : forall w t,
+  (forall k, w_at w = Some k -> tree_find t k = tree_find (w_tree w) k) ->
+  path_load {| w_at := w_at w; w_tree := t |} = path_load w.
+Proof. exact path_load_ignores_other_places. Qed.
+Print Assumptions C11_path_load_ignores_other_places.
+(* non-vacuity and the whole course: current -> v1; current -> v2; v1 rewritten behind the
+   path's back (no effect); current dangling (set kept); current -> the rewritten v1; and a
+   path whose last element is itself a link (filepath.Walk does not follow it: nothing) *)
+Theorem C11_path_switch_example :
+  denoted (nth 1 path_switch_history {| w_at := None; w_tree := [] |}) = RDir rel2_files /\
+  usable (dir_view rel2_files) = Some [rel_v2_cert] /\
+  run_store_seen [] (e2e_actions watch_step false None (map path_load path_switch_history) (bs "shop.example") true)
+  = [SCert rel_v1_cert; SCert rel_v2_cert; SCert rel_v2_cert; SCert rel_v2_cert; SCert rel_v3_cert] /\
+  path_load {| w_at := Some 0; w_tree := [(0, RFile (bs "certs") {| d_kind := KSymlink; d_size := 17; d_mtime := 1; d_read := None |});
+                                           (1, RDir rel1_files)] |} = Loaded (Some []).
+Proof. exact path_switch_example. Qed.
+Print Assumptions C11_path_switch_example.
+(* NOT the code ([pinned_loads]): a source that resolves the path once, when it is created,
+   does not have the property - the release the link is switched to never takes effect *)
+Theorem C11_pinned_path_source_refuted :
+  exists ws w d set n s,
+    denoted w = RDir d /\ usable (dir_view d) = Some set /\
+    nth (length ws) (run_store_seen [] (e2e_actions watch_step false None (pinned_loads (ws ++ [w])) n s)) SNone
+      <> seen_on set n s /\
+    nth (length ws) (run_store_seen [] (e2e_actions watch_step false None (map path_load (ws ++ [w])) n s)) SNone
+      = seen_on set n s.
+Proof. exact pinned_path_refuted. Qed.
+Print Assumptions C11_pinned_path_source_refuted.
